@@ -20,3 +20,5 @@ ASSUMPTIONS = ["stdlib objects the code calls into (ElementTree, re, decimal, da
 def run(project, rep):
     rep.run(E.e_rules, project, rep, thorough=(rep.tier == "thorough"))
     rep.run(E.e_r5_ownership_and_context, project, rep, thorough=(rep.tier == "thorough"))
+    rep.run(E.e_r7_reiterable_class_tables, project, rep)
+    rep.run(E.e_r8_memo_keys, project, rep, thorough=(rep.tier == "thorough"))
